@@ -784,9 +784,9 @@ theorem aspaCheck_isSome (holdsAsn : Nat → Bool) (d : AspaDef) :
       · by_cases h4 : holdsAsn d.customer = true <;> simp [h1, h2, h3, h4]
 
 /-- The addition loop fails exactly when some definition is bad. -/
-theorem aspaAddFold (orig : AspaDefs) (holdsAsn : Nat → Bool) (adds : List AspaDef)
+theorem aspaAddFold (holdsAsn : Nat → Bool) (adds : List AspaDef)
     (acc : AspaDefs × List AspaEv) :
-    (∃ e, foldlE (aspaAddStep orig holdsAsn) acc adds = .error e) ↔
+    (∃ e, foldlE (aspaAddStep holdsAsn) acc adds = .error e) ↔
       ∃ d ∈ adds, Spec.badDef holdsAsn d = true := by
   induction adds generalizing acc with
   | nil => simp [foldlE]
@@ -794,7 +794,7 @@ theorem aspaAddFold (orig : AspaDefs) (holdsAsn : Nat → Bool) (adds : List Asp
     by_cases hb : Spec.badDef holdsAsn d = true
     · have : (aspaCheck holdsAsn d).isSome = true := by rw [aspaCheck_isSome]; exact hb
       obtain ⟨e, he⟩ := Option.isSome_iff_exists.mp this
-      have hstep : aspaAddStep orig holdsAsn acc d = .error e := by
+      have hstep : aspaAddStep holdsAsn acc d = .error e := by
         unfold aspaAddStep; simp [he]
       constructor
       · intro _; exact ⟨d, List.mem_cons_self, hb⟩
@@ -803,15 +803,15 @@ theorem aspaAddFold (orig : AspaDefs) (holdsAsn : Nat → Bool) (adds : List Asp
       have hc : aspaCheck holdsAsn d = none := by
         have : (aspaCheck holdsAsn d).isSome = false := by rw [aspaCheck_isSome]; exact hb'
         simpa using this
-      have hok : ∃ acc', aspaAddStep orig holdsAsn acc d = .ok acc' := by
+      have hok : ∃ acc', aspaAddStep holdsAsn acc d = .ok acc' := by
         unfold aspaAddStep
         simp only [hc]
         split
         · exact ⟨_, rfl⟩
         · split <;> exact ⟨_, rfl⟩
       obtain ⟨acc', hacc'⟩ := hok
-      have hfold : foldlE (aspaAddStep orig holdsAsn) acc (d :: rest) =
-          foldlE (aspaAddStep orig holdsAsn) acc' rest := by simp [foldlE, hacc']
+      have hfold : foldlE (aspaAddStep holdsAsn) acc (d :: rest) =
+          foldlE (aspaAddStep holdsAsn) acc' rest := by simp [foldlE, hacc']
       rw [hfold, ih acc']
       constructor
       · rintro ⟨x, hx, hbx⟩; exact ⟨x, List.mem_cons_of_mem _ hx, hbx⟩
@@ -1001,32 +1001,26 @@ theorem aspaRemoveFold_applied (s : AspaDefs) (rest : List Nat) (acc acc' : Aspa
         simp only
         rw [applyAspaEvs_snoc, ha]; rfl
 
-/-- The addition loop, when no customer is listed twice and none of the listed customers is
-also removed: the events produce the running copy, up to the order of providers. -/
-theorem aspaAddFold_applied (s : AspaDefs) (holdsAsn : Nat → Bool) (removed : List Nat)
-    (adds : List AspaDef) (acc acc' : AspaDefs × List AspaEv) (done : List Nat)
-    (hnodup : (done ++ adds.map (·.customer)).Nodup)
-    (hdisj : ∀ d ∈ adds, d.customer ∉ removed)
+theorem sameProviders_none_right {a : Option AspaDef} (h : SameProviders a none) : a = none := by
+  cases a with
+  | none => rfl
+  | some x => exact absurd h (by simp [SameProviders])
+
+/-- The addition loop: the events produce the running copy, up to the order of providers. -/
+theorem aspaAddFold_applied (s : AspaDefs) (holdsAsn : Nat → Bool)
+    (adds : List AspaDef) (acc acc' : AspaDefs × List AspaEv)
     (hI1 : ∀ c, SameProviders ((applyAspaEvs s acc.2).get? c) (acc.1.get? c))
-    (hI2 : ∀ c, c ∉ removed → c ∉ done → (applyAspaEvs s acc.2).get? c = s.get? c)
-    (h : foldlE (aspaAddStep s holdsAsn) acc adds = .ok acc') :
+    (h : foldlE (aspaAddStep holdsAsn) acc adds = .ok acc') :
     ∀ c, SameProviders ((applyAspaEvs s acc'.2).get? c) (acc'.1.get? c) := by
-  induction adds generalizing acc done with
+  induction adds generalizing acc with
   | nil => simp [foldlE] at h; subst h; exact hI1
   | cons d rest ih =>
     unfold foldlE at h
-    cases hs : aspaAddStep s holdsAsn acc d with
+    cases hs : aspaAddStep holdsAsn acc d with
     | error e => rw [hs] at h; cases h
     | ok a1 =>
       rw [hs] at h
       simp only at h
-      have hcr : d.customer ∉ removed := hdisj d List.mem_cons_self
-      have hcd : d.customer ∉ done := by
-        intro hmem
-        rw [List.map_cons, List.nodup_append] at hnodup
-        exact hnodup.2.2 _ hmem _ List.mem_cons_self rfl
-      have hA : (applyAspaEvs s acc.2).get? d.customer = s.get? d.customer := hI2 _ hcr hcd
-      -- the step
       unfold aspaAddStep at hs
       cases hchk : aspaCheck holdsAsn d with
       | some e => rw [hchk] at hs; cases hs
@@ -1037,31 +1031,34 @@ theorem aspaAddFold_applied (s : AspaDefs) (holdsAsn : Nat → Bool) (removed : 
           intro hc
           unfold aspaCheck at hchk
           simp [hc] at hchk
-        apply ih a1 (done ++ [d.customer])
-        · simpa [List.append_assoc] using hnodup
-        · intro x hx; exact hdisj x (List.mem_cons_of_mem _ hx)
-        · -- hI1 for the new state
-          intro c
-          cases hso : s.get? d.customer with
-          | none =>
-            rw [hso] at hs
-            simp only [Except.ok.injEq] at hs
-            subst hs
-            simp only
-            rw [applyAspaEvs_snoc]
-            simp only [applyAspaEv]
-            rw [AspaDefs.get?_addOrReplace, AspaDefs.get?_addOrReplace]
-            by_cases hc : c = d.customer
-            · simp only [hc, if_true]; exact sameProviders_refl _
-            · simp only [hc, if_false]; exact hI1 c
-          | some existing =>
-            rw [hso] at hs
-            simp only at hs
-            have hexc : existing.customer = d.customer := AspaDefs.get?_customer s _ _ hso
+        apply ih a1 _ h
+        intro c
+        have hIc := hI1 d.customer
+        cases hso : acc.1.get? d.customer with
+        | none =>
+          rw [hso] at hs hIc
+          have hAn := sameProviders_none_right hIc
+          simp only [Except.ok.injEq] at hs
+          subst hs
+          simp only
+          rw [applyAspaEvs_snoc]
+          simp only [applyAspaEv]
+          rw [AspaDefs.get?_addOrReplace, AspaDefs.get?_addOrReplace]
+          by_cases hc : c = d.customer
+          · simp only [hc, if_true]; exact sameProviders_refl _
+          · simp only [hc, if_false]; exact hI1 c
+        | some existing =>
+          rw [hso] at hs hIc
+          simp only at hs
+          have hexc : existing.customer = d.customer := AspaDefs.get?_customer _ _ _ hso
+          -- the applied state has a definition with the same providers
+          cases hA : (applyAspaEvs s acc.2).get? d.customer with
+          | none => rw [hA] at hIc; exact absurd hIc (by simp [SameProviders])
+          | some ex' =>
+            rw [hA] at hIc
+            obtain ⟨hcust, hprov⟩ := hIc
             split at hs
-            · -- an update event
-              rename_i hnonempty
-              simp only [Except.ok.injEq] at hs
+            · simp only [Except.ok.injEq] at hs
               subst hs
               simp only
               rw [applyAspaEvs_snoc]
@@ -1069,44 +1066,44 @@ theorem aspaAddFold_applied (s : AspaDefs) (holdsAsn : Nat → Bool) (removed : 
               rw [AspaDefs.get?_applyUpdate, AspaDefs.get?_addOrReplace]
               by_cases hc : c = d.customer
               · simp only [hc, if_true]
-                rw [hA, hso]
+                rw [hA]
                 simp only
-                have hmem : ∀ p, p ∈ (existing.applyUpdate
+                have hmem : ∀ p, p ∈ (ex'.applyUpdate
                     { added := d.providers.filter (fun p => !(existing.providers.contains p)),
                       removed := existing.providers.filter (fun p => !(d.providers.contains p)) }).providers ↔
                     p ∈ d.providers := by
                   intro p
-                  rw [mem_applyUpdate]
+                  rw [mem_applyUpdate, hprov p]
                   by_cases hpe : p ∈ existing.providers <;> by_cases hpd : p ∈ d.providers <;>
                     simp [List.mem_filter, hpe, hpd]
-                have hnonE : (existing.applyUpdate
+                have hnonE : (ex'.applyUpdate
                     { added := d.providers.filter (fun p => !(existing.providers.contains p)),
                       removed := existing.providers.filter (fun p => !(d.providers.contains p)) }).providers.isEmpty = false := by
                   obtain ⟨p, hp⟩ := List.exists_mem_of_ne_nil _ hne
                   have := (hmem p).mpr hp
-                  cases hl : (existing.applyUpdate
+                  cases hl : (ex'.applyUpdate
                     { added := d.providers.filter (fun p => !(existing.providers.contains p)),
                       removed := existing.providers.filter (fun p => !(d.providers.contains p)) }).providers with
                   | nil => rw [hl] at this; cases this
                   | cons _ _ => rfl
                 rw [hnonE]
                 simp only [Bool.false_eq_true, if_false]
-                exact ⟨hexc, hmem⟩
+                exact ⟨hcust.trans hexc, hmem⟩
               · simp only [hc, if_false]; exact hI1 c
-            · -- no event: the definition is the same up to order
-              rename_i hempty
+            · rename_i hempty
               simp only [Except.ok.injEq] at hs
               subst hs
               simp only
               rw [AspaDefs.get?_addOrReplace]
               by_cases hc : c = d.customer
               · simp only [hc, if_true]
-                rw [hA, hso]
-                refine ⟨hexc, ?_⟩
+                rw [hA]
+                refine ⟨hcust.trans hexc, ?_⟩
                 have he : (d.providers.filter (fun p => !(existing.providers.contains p))) = [] ∧
                     (existing.providers.filter (fun p => !(d.providers.contains p))) = [] := by
                   simpa [ProvUpdate.isEmpty, List.isEmpty_iff] using hempty
                 intro p
+                rw [hprov p]
                 constructor
                 · intro hp
                   apply Classical.byContradiction
@@ -1121,38 +1118,6 @@ theorem aspaAddFold_applied (s : AspaDefs) (holdsAsn : Nat → Bool) (removed : 
                     List.mem_filter.mpr ⟨hp, by simpa using hn⟩
                   rw [he.1] at this; cases this
               · simp only [hc, if_false]; exact hI1 c
-        · -- hI2 for the new state: customers other than this one are untouched
-          intro c hcr' hcd'
-          have hc : c ≠ d.customer := by
-            intro heq; apply hcd'; rw [heq]; simp
-          have hcd0 : c ∉ done := fun hm => hcd' (List.mem_append_left _ hm)
-          cases hso : s.get? d.customer with
-          | none =>
-            rw [hso] at hs
-            simp only [Except.ok.injEq] at hs
-            subst hs
-            simp only
-            rw [applyAspaEvs_snoc]
-            simp only [applyAspaEv]
-            rw [AspaDefs.get?_addOrReplace]
-            simp only [hc, if_false]
-            exact hI2 c hcr' hcd0
-          | some existing =>
-            rw [hso] at hs
-            simp only at hs
-            split at hs
-            · simp only [Except.ok.injEq] at hs
-              subst hs
-              simp only
-              rw [applyAspaEvs_snoc]
-              simp only [applyAspaEv]
-              rw [AspaDefs.get?_applyUpdate]
-              simp only [hc, if_false]
-              exact hI2 c hcr' hcd0
-            · simp only [Except.ok.injEq] at hs
-              subst hs
-              exact hI2 c hcr' hcd0
-        · exact h
 
 /-! ## BGPsec -/
 
